@@ -430,7 +430,9 @@ class SimNet(object):
         lo, hi = self.lat
         lat = decision.get("lat")
         if lat is None:
-            lat = (lo + rng.random() * (hi - lo)) * 2 if hi > 0 else 0.0
+            # never zero: a peer that closes at once makes the real client reconnect at once, and with a
+            # zero-time handshake that loop would spin forever inside one virtual instant
+            lat = (lo + rng.random() * (hi - lo)) * 2 if hi > 0 else 0.0005
         att["kind"] = kind
         sim.record("connect", pid, host, port, kind)
         sim.mark("connect", "%s:%s" % (host, port))
